@@ -815,6 +815,10 @@ func (c *Ctx) BNot(a *Term) *Term {
 	if a.isConst && w <= 64 {
 		return c.BVConst(^a.cv, w)
 	}
+	if a.isConst {
+		all := new(big.Int).Sub(new(big.Int).Lsh(big.NewInt(1), uint(w)), big.NewInt(1))
+		return c.BVBig(new(big.Int).Xor(a.BigVal(), all), w)
+	}
 	if a.op == "bvnot" {
 		return a.args[0]
 	}
